@@ -51,6 +51,11 @@ ASSUME = [
     "*testing.T inside testing.Main (-test.timeout 10m, go test's default, so T.Deadline() is set and later than every Params.Deadline); the "
     "verdict is T.Failed()/T.Skipped() and the end of the script the moment a function registered with Env.Defer runs; Params.Deadline left "
     "zero (Run then takes T.Deadline()) is not part of the statement and not exercised",
+    "one script per deadline distance of 3 s and more starts after the interrupt was due (second script of a sequential RunT call, half a "
+    "grace period into the reserved time) with a command that ignores the interrupt from its first instruction: the driver that runs these "
+    "cases ignores SIGQUIT itself, so its children start out ignoring it (the Go helper's runtime takes the signal over a moment later; an "
+    "interrupt sent at the very start is lost on it, which is the point); such a command is force-killed one grace period after it "
+    "started - SLateKillNotBeforeGrace / SLateKillOnTime count from the helper's first sign of life",
     "Deadline.tla idealisation: goroutine steps take no time but interleave in every order with the timed events of the same instant; "
     "timed events (context, kill timer, process death) happen within J = 1 tick (25 ms) of their due time",
 ]
@@ -128,7 +133,8 @@ class Runner:
             self.next_id += 1
             withid.append(c)
         out = []
-        for mode, part in (("run", [c for c in withid if not c.get("via")]), ("viarun", [c for c in withid if c.get("via")])):
+        for mode, part in (("run", [c for c in withid if not c.get("via") and not c.get("ign")]), ("viarun", [c for c in withid if c.get("via")]),
+                           ("ign", [c for c in withid if c.get("ign") and not c.get("via")])):
             if part:
                 out += self._run(part, par, group, tag, mode)
         return out
@@ -143,7 +149,10 @@ class Runner:
         traces = self.ctx.path("val-%s" % name, "trace.ndjson")
         out = self.ctx.path("result-%s.json" % name)
         longest = max(c["D"] for c in cases) / 1000.0
-        run_driver(self.ctx, [self.drv, mode, "-plan", plan, "-traces", traces, "-out", out, "-work", self.ctx.mkdir("work-" + name),
+        extra = []
+        if mode == "ign":       # the driver ignores SIGQUIT itself: what it starts begins life ignoring the interrupt
+            mode, extra = "run", ["-ignquit"]
+        run_driver(self.ctx, [self.drv, mode] + extra + ["-plan", plan, "-traces", traces, "-out", out, "-work", self.ctx.mkdir("work-" + name),
                               "-par", str(par), "-group", str(group), "-smin", str(SMIN)],
                    timeout=int(120 + (longest + 8) * (len(cases) / float(par * group) + 2)))
         if mode == "viarun":
@@ -209,7 +218,7 @@ def early_timeout(rec):
 
 
 def case_of(rec):
-    return {k: rec.get(k, 0) for k in ("label", "D", "x", "onint", "ok", "neg", "after")} | ({"via": rec["via"]} if rec.get("via") else {})
+    return {k: rec.get(k, 0) for k in ("label", "D", "x", "onint", "ok", "neg", "after")} | ({"via": rec["via"]} if rec.get("via") else {}) | ({"ign": True} if rec.get("ign") else {})
 
 
 def judge(ctx, runner, misses, all_ds=frozenset()):
